@@ -21,9 +21,12 @@ instance instCostNumDual : CostNum Dual where
   abs a := ⟨absR a.v, Dual.sgn a.v * a.d⟩
   min a b := if a.v ≤ b.v then a else b
   max a b := if a.v ≤ b.v then b else a
-  ste _ fwd bwd args :=
+  ste name fwd bwd args :=
     let vs := args.map (·.v)
     let gs := bwd vs 1
+    -- `ComputeOxUnrollSTE.forward` returns an *integer* tensor: torch marks it non-differentiable and
+    -- never calls its `backward` (observed and tied by the gradient correspondence of C12)
+    if name = "ComputeOxUnrollSTE" then ⟨fwd vs, 0⟩ else
     ⟨fwd vs, ((List.range args.length).map fun i => (gs.getD i none).getD 0 * (args.getD i ⟨0, 0⟩).d).sum⟩
 
 /-- a layer description in the Dual reading from its value and the derivative of each numeric key -/
